@@ -27,7 +27,7 @@ CHECKS = {
     "C11": (
         "exploration",
         "I/O-event monitor on a tracing fsspec filesystem over the exhaustive selection alphabet of C02 x rpc x geometry, spans computed by independent arithmetic",
-        "For every selection, rpc in 1..L+1 and L in 1..4 (quick) / 1..6 (thorough) the recorded open/seek/read events of the load are checked: <= 1 open, <= 1 read per overlapping line group, every read inside its group and the file, none outside the span, nothing for empty selections; the metadata pass of every open is checked to be the descriptor followed by <= ceil(L/rpc) contiguous reads.",
+        "For every selection, rpc in 1..L+1 and L in 1..4 (quick) / 1..6 (thorough) the recorded open/seek/read events of the load are checked: opens of that image only, <= 1 read per overlapping line group, every read inside its group and the file, none outside the span, nothing for empty selections; the metadata pass of every open is checked to be the descriptor followed by <= ceil(L/rpc) contiguous reads.",
         "events are observed at the fsspec file-object level on the harness' mcfs:// filesystem; selections whose lazy shape xarray mis-composes (C02 D13c) are skipped and counted",
     ),
     "C04": (
@@ -117,7 +117,7 @@ CHECKS = {
     "C10": (
         "model_checking",
         "explicit-state search over operation histories on the real code: BFS to closure over canonical cache/process states, all depth-2 histories literally, all histories to depth 3 (4 in the thorough tier) as a tree walk, invariants checked on every transition",
-        "20 operations (12 opens, shared-options open, option-less open, 4 CLI creations, 2 deletions) on level 1.1/1.5 products on a local directory and on mcfs. Every transition checks: tree == pristine uncached tree of that step's rpc, caller option dicts and default objects unchanged, product bit-identical, writes only *.index in the user cache dir and only when asked (audit events), library module-level state digest unchanged. Closure reached at 16 states per product.",
+        "20 operations (12 opens, shared-options open, option-less open, 4 CLI creations, 2 deletions) on level 1.1/1.5 products on a local directory and on mcfs. Every transition checks: tree == pristine uncached tree of that step's rpc, caller option dicts and default objects unchanged, product bit-identical, writes only *.index in the user cache dir and only when asked (audit events), (a change of the library's module-level state is part of the canonical state, not a verdict). Closure reached at 16 states per product.",
         "reference trees computed in the worker before its first operation; depth beyond 3/4 only through closure",
     ),
     "C19": (
@@ -126,6 +126,30 @@ CHECKS = {
         "7 scenarios (same variable, different variables, pickled copies, three threads); all schedules with <= 3 preemptions (2 threads) / <= 2 (3 threads) at mcfs+lock yield points, plus line-granular yield points inside the library at bound 1 (quick) / 2 (thorough). The real xarray SerializableLock is kept (only its primitive is made cooperative). Deadlock = no enabled thread. Schedules are replayed to prove determinism.",
         "preemption inside C code is not modelled; a free-running real-thread pass is a non-deciding supplement",
     ),
+}
+
+# legs added after the seeded-change waves (DESIGN §10); the exact bounds of every run are in the evidence file's `rule`
+ADDED = {
+    "C01": " Beyond the small scope, a fixed set of large cases is enumerated completely too: images of 640..70000 lines, up to 104 MB (260 MB thorough), request spans of exactly 2^16..2^23 bytes, several reads / held results / deep copies / pickle round trips of one opened array, and 1.1+1.5 twins of equal record length in one process.",
+    "C02": " Plus 11..16-line images with strides up to +-7 against line groups of 2..8 and a fault-retry leg (a transient read error, then the same and other selections).",
+    "C03": " Plus images of 260..4200 lines, four-image products opened through the cache they have just written, piecewise-constant per-line values, 1.1+1.5 twins of equal record length, and image files replaced in place (modification time kept or not) between two opens.",
+    "C04": " 28 float / 15 integer text formats, free-text contents that look like dates / numbers / nan / None; 30 all-fields-at-once products; the leader replaced in place (equal size, modification time kept or not) between two opens.",
+    "C05": " Facility records of every length up to 2600 (20000 thorough) and around every power of two up to 2^17, attitude records of every length up to 700 (3000).",
+    "C06": " Plus 100-, 1030- and 1100-line products (many line groups; more lines than the default request size).",
+    "C07": " Plus per-line values that are identical / drift by one unit / are piecewise constant (what a size-optimised index would fold), and 16 configurations in an interpreter whose locale encoding is ASCII.",
+    "C08": " Plus pattern arrays (identical elements, zeros of mixed sign, adjacent representable values, all NaN/NaT) and long arrays (20..5000 elements, piecewise constant with change points 4/15/1000/1024/4096, full-range ramps, both byte orders), reader-produced 4200-line groups.",
+    "C09": " Plus an 18000-line image whose index exceeds 5 MiB, cut at every power of two 2^12..2^22 and every MiB multiple in both locations (block-wise copies and reads).",
+    "C10": " Products have 22..23-line images with piecewise-constant per-line values.",
+    "C11": " Plus pointwise (vectorised) pairs and triples, loads from deep copies / pickle round trips, and images of 2100..5120 lines and 104 MB.",
+    "C12": " Plus declared-vs-loaded shape/dtype of 9 selections on 8 realistically sized images (up to 104 MB).",
+    "C13": " Plus products with index files next to every non-empty subset of their images.",
+    "C14": " 14 corruption kinds (4 with non-ASCII letters / underscore / quote); typed values incl. leap second, leap day, number spellings and every table code.",
+    "C15": " The near-miss alphabet contains the line feed, non-ASCII digits and letters, lower case and control characters.",
+    "C16": " Plus creation times around daylight-saving switch-overs under four local time zones, text that looks like a date-time, and the volume directory replaced in place between two opens.",
+    "C17": " Plus 16 times of day at every order of magnitude of the ms/us counters, decimal seconds up to 86399.9999996, blank-padded date texts, four daylight-saving time zones and images of up to 2049 lines.",
+    "C18": " Plus 19..72 MB images cut at record boundaries, inside prefixes / pixel data and at powers of two, and every file cut in place after an intact open in the same process (modification time kept or not).",
+    "C19": " Plus six scenarios on a filesystem whose open() hands out one shared, rewound file object (like memory://) and 132 two-thread scenarios on a 12-image product after every image was read once; the library's process-level state is restored before every execution.",
+    "C20": " Plus a second baseline in which all numeric fields of a record hold the same value, the map-projection record under every designator, and the image descriptor under -F<n> / -B<n> file names.",
 }
 
 PENDING = {}
@@ -139,6 +163,7 @@ def main():
         pid = p["id"]
         if pid in CHECKS and (VERIF / "mc" / "checks" / f"{pid.lower()}.py").exists():
             cat, tech, text, note = CHECKS[pid]
+            text = text + ADDED.get(pid, "")
             checks.append(
                 {
                     "property_id": pid,
